@@ -3,8 +3,8 @@
 import json, os, sys
 ROOT = os.path.dirname(os.path.dirname(os.path.abspath(__file__)))
 sys.path.insert(0, os.path.join(ROOT, "lib"))
-from props import PROPS
-from manifest_meta import META, NOT_APPLICABLE, HOOKS, NOTES
+from props import PROPS, META
+from manifest_meta import NOT_APPLICABLE, HOOKS, NOTES
 
 ALL = ["C%02d" % i for i in range(1, 21)]
 checks = []
